@@ -9,6 +9,14 @@ from .fakes import tcp_device as td
 from . import ops
 
 
+class OperationHung(Exception):
+    """The operation neither returned nor raised although the device had sent everything it was going to send."""
+
+
+_hangs_seen = 0
+OP_TIMEOUT_S = 20.0   # generous: on loopback a reply is there in microseconds; only a client waiting for bytes nobody will send gets here
+
+
 class OpRecord:
     __slots__ = ("op", "args", "writes", "outcome", "value", "exc", "frames_before", "sessions_before")
 
@@ -29,9 +37,16 @@ class Client:
     async def run(self, op: str, args: Dict[str, Any], remote=None) -> OpRecord:
         rec = OpRecord(op, args)
         mark = self.spy.mark()
+        global _hangs_seen
+        # the first two hangs of a worker get the full, generous wait; once they are on record the rest only need to be skipped quickly
+        limit = OP_TIMEOUT_S if _hangs_seen < 2 else 1.0
         try:
-            rec.value = await ops.call(self.api, op, args, remote)
+            rec.value = await asyncio.wait_for(ops.call(self.api, op, args, remote), limit)
             rec.outcome = "return"
+        except asyncio.TimeoutError:
+            _hangs_seen += 1
+            rec.outcome = "raise"
+            rec.exc = OperationHung(f"{op} did not finish within {limit:.0f} s of a flushed reply")
         except asyncio.CancelledError:
             raise
         except BaseException as exc:  # the oracle judges the type
